@@ -97,6 +97,12 @@ def run(ctx):
             alg, enc = rng.choice([("dir", "A128GCM"), ("A128KW", "A128CBC-HS256"), ("ECDH-ES", "A256GCM"), ("RSA-OAEP", "A192GCM"), ("PBES2-HS256+A128KW", "A128GCM")])
             kn = E.key_name(alg, enc)
             header = {"alg": alg, "enc": enc, **header_extra}
+            # every registered JWE header member the caller may give comes back as given - also the ones that steer the
+            # transport (zip, with claims that do and do not shrink under DEFLATE)
+            if rng.random() < 0.4:
+                header["zip"] = "DEF"
+            if rng.random() < 0.15:
+                header["cty"] = rng.choice(["JWT", "example"])
             kw = {"registry": jwe.JWERegistry(algorithms=E.ALL_NAMES)}
         form = rng.choice(["key", "key", "set", "callable"])
         sk, pk = K.key(kn, private=True), K.key(kn, private=K._SPECS[kn][0] == "oct" or transport == "jwe")
